@@ -4,6 +4,10 @@ Shape: formula monitor over configurations and fix/release/constraint histories.
 random history over {fix, release, add simple constraint, add matrix constraint, set values, do_fit}
 on every fit type and on multi-fits (constraints added to the multi-fit or to members) the monitor
 re-derives ndf, goodness of fit, chi2 probability and result-dict entries from the declared state.
+Multi-fits: members with permuted signature orders (the index of a parameter in a member differs from its index
+in the multi-fit) and, in half of the cases, uncertainty sources shared through MultiFit.add_error /
+add_matrix_error at a random position of the history (reference: joint r^T V^-1 r with the shared matrix in the
+diagonal and off-diagonal blocks of the sharing members + every declared constraint cost).
 """
 import numpy as np
 from scipy import stats
@@ -11,20 +15,24 @@ from scipy import stats
 from vlib import dsl, gen
 from vlib.models import Model
 from vlib.monitor import Tol, fmt_exc, numerical_failure
-from vlib.ref import COST_ALIASES, IS_CHI2, NEEDS_ERRORS, POISSON, constraint_cost, constraint_ndf, pd_info
+from vlib.ref import COST_ALIASES, IS_CHI2, NEEDS_ERRORS, POISSON, constraint_cost, constraint_ndf, pd_info, source_cov
 
 PROPERTY = "C10"
 TIERS = {"quick": {"shards": 8, "budget_s": 35}, "thorough": {"shards": 16, "budget_s": 480}}
 RULE = (
     "fit type (xy/indexed/hist/unbinned/multi of 2-3 members with random parameter-name overlap) x cost x sources x random history "
     "(<=10 ops quick / <=25 thorough) over fix/release/simple+matrix constraints (on the fit, the multi-fit or a member)/set values/do_fit; "
-    "every observable re-derived after every op; non-trivial = history contains a fix or release, a constraint, or is a multi-fit; distinct by case hash"
+    "every observable re-derived after every op; non-trivial = history contains a fix or release, a constraint, or is a multi-fit; distinct by case hash; "
+    "multi-fits: signature order of every member permuted with p = 0.5; half of them with 1-2 absolute y sources (simple / matrix) shared by 2..all covariance-chi2 "
+    "xy / indexed members of equal size, added through the multi-fit at a random position of the history (before / after fix, member constraints, do_fit)"
 )
 ASSUMPTIONS = [
     "documented: ndf = N_data + N_constraint_measurements - N_parameters + N_fixed; gof = cost - cost(model := data) without determinant term; "
     "chi2 probability = chi2.sf(cost - ln det V, ndf) for chi2-type costs, None otherwise",
     "UnbinnedFit.goodness_of_fit is documented None and asserted as such",
     "configurations restricted to positive-definite total covariance (cond <= 1e8); chi2 probability compared with absolute tolerance 1e-10 (the code evaluates 1 - cdf)",
+    "multi-fits with shared sources: chi2-type members use the covariance chi2 ('chi2') and own at least one source; joint covariance cond <= 1e6 (as C11); "
+    "shared sources are absolute, data-referenced, on the y axis (relative / x sources and their refusals are C11's workload)",
 ]
 ANCHORS = [
     ("kafe2.fit._base.fit", "FitBase.ndf"),
@@ -39,6 +47,8 @@ ANCHORS = [
     ("kafe2.fit.multi.fit", "MultiFit.chi2_probability"),
     ("kafe2.core.constraint", "GaussianMatrixParameterConstraint.extra_ndf"),
     ("kafe2.core.constraint", "GaussianSimpleParameterConstraint.extra_ndf"),
+    ("kafe2.fit.multi.fit", "MultiFit._init_shared_error_nodes"),
+    ("kafe2.fit.multi.cost", "SharedCostFunction.__init__"),
 ]
 
 COSTS = ["chi2", "chi2_pointwise", "chi2_fast", "nll_gaussian", "nllr_gaussian", "nll_poisson", "nllr_poisson", "gauss_approximation", "gauss_approximation_pointwise", "chi2_no_errors"]
@@ -46,25 +56,28 @@ COSTS = ["chi2", "chi2_pointwise", "chi2_fast", "nll_gaussian", "nllr_gaussian",
 
 def floors(tier):
     return {
-        "comparisons": {"ndf": 1500, "goodness_of_fit": 1200, "chi2_probability": 1200, "gof/ndf": 1200, "multi.ndf": 150, "multi.goodness_of_fit": 150, "multi.chi2_probability": 150},
-        "ops": ["fix_parameter", "release_parameter", "add_parameter_constraint", "add_matrix_parameter_constraint", "set_parameter_values", "do_fit", "member.add_parameter_constraint", "member.add_matrix_parameter_constraint"],
+        "comparisons": {"ndf": 1500, "goodness_of_fit": 1200, "chi2_probability": 1200, "gof/ndf": 1200, "multi.ndf": 150, "multi.goodness_of_fit": 150, "multi.chi2_probability": 150,
+                        "multi.goodness_of_fit(shared)": 60, "multi.goodness_of_fit(shared, member constraint at another index)": 15, "multi.chi2_probability(shared)": 20},
+        "ops": ["fix_parameter", "release_parameter", "add_parameter_constraint", "add_matrix_parameter_constraint", "set_parameter_values", "do_fit", "member.add_parameter_constraint", "member.add_matrix_parameter_constraint", "multi.add_error.shared", "multi.add_matrix_error.shared"],
         "reach": ["%s:%s" % a for a in ANCHORS],
         "sets": {"type_cost": 25},
-        "strata": ["multi", "unbinned", "hist", "xy", "indexed", "release-after-fix", "fix-again", "constraint-after-fit"],
+        "strata": ["multi", "unbinned", "hist", "xy", "indexed", "release-after-fix", "fix-again", "constraint-after-fit",
+                   "multi:permuted-order", "multi:shared", "multi:shared+member-constraint", "multi:shared+member-constraint-at-another-index", "multi:shared-after-fix", "multi:member-constraint-before-shared",
+                   "multi:member-constraint-after-shared", "multi:shared+do_fit"],
         "distinct_nontrivial": 150,
     }
 
 
 # ------------------------------------------------------------------ generation
-def gen_single(rng, ftype, cost, prefix=""):
+def gen_single(rng, ftype, cost, prefix="", n=None):
     fid = COST_ALIASES.get(cost)
     counts = fid in POISSON
     if ftype == "xy":
         fam = str(rng.choice(["poly1", "poly2", "exponential", "trig", "poly3"]))
-        spec = gen.gen_xy_spec(rng, family=fam, cost=cost, counts=counts, n=int(rng.integers(5, 11)))
+        spec = gen.gen_xy_spec(rng, family=fam, cost=cost, counts=counts, n=n or int(rng.integers(5, 11)))
     elif ftype == "indexed":
         fam = str(rng.choice(["poly1", "poly2", "exponential", "trig"]))
-        spec = gen.gen_indexed_spec(rng, family=fam, cost=cost, counts=counts, n=int(rng.integers(5, 11)))
+        spec = gen.gen_indexed_spec(rng, family=fam, cost=cost, counts=counts, n=n or int(rng.integers(5, 11)))
     elif ftype == "hist":
         spec = gen.gen_hist_spec(rng, cost=cost, n_bins=int(rng.integers(6, 10)))
     else:
@@ -128,24 +141,81 @@ def gen_case(rng, tier, idx, shard, nshards):
         m = Model.from_spec(spec["model"])
         hist = gen_history(rng, m.pnames, m.defaults, hl)
         return {"property": "C10", "kind": kind, "spec": spec, "setup": ops, "history": hist, "minimizer": str(rng.choice(["iminuit", "scipy"]))}
-    # multi-fit: 2-3 members, chi2-type or mixed costs
-    nm = int(rng.integers(2, 4))
-    members = []
-    for j in range(nm):
-        ftype = str(rng.choice(["xy", "indexed", "hist", "unbinned"], p=[0.45, 0.3, 0.15, 0.1]))
-        cost = "nll" if ftype == "unbinned" else str(rng.choice(["chi2", "chi2", "chi2_pointwise", "nll_gaussian", "nll_poisson"]))
-        spec, ops = gen_single(rng, ftype, cost, prefix="m%d" % j)
-        members.append({"spec": spec, "setup": ops})
-    names, vals = [], []
-    mem = []
-    for j, mb in enumerate(members):
-        m = Model.from_spec(mb["spec"]["model"])
-        mem.append((j, list(m.pnames)))
-        for n, v in zip(m.pnames, m.defaults):
-            if n not in names:
-                names.append(n)
-                vals.append(v)
+    return gen_multi(rng, tier, gi, hl)
+
+
+def permute_signature(rng, spec):
+    """the same model with its parameters declared in another order (defaults move with their names)"""
+    ms = spec["model"]
+    k = len(ms["order"])
+    perm = [int(i) for i in rng.permutation(k)]
+    spec["model"] = dict(ms, order=[ms["order"][i] for i in perm], defaults=[ms["defaults"][i] for i in perm])
+
+
+def index_differs(names, mem, chi2_flags):
+    """(member, parameter) pairs of chi2 members whose index in the member differs from the index in the multi-fit"""
+    return [(j, q) for (j, mp), c in zip(mem, chi2_flags) if c for q in mp if mp.index(q) != names.index(q)]
+
+
+def gen_multi(rng, tier, gi, hl):
+    # multi-fit: 2-3 members, chi2-type or mixed costs; stratified part: every second multi-fit has shared sources
+    stratified = gi < 60
+    shared_mode = bool((gi // 5) % 2 == 0) if stratified else bool(rng.random() < 0.5)
+    for _attempt in range(50):
+        nm = int(rng.integers(2, 4))
+        S = []
+        if shared_mode:
+            S = sorted(int(i) for i in rng.choice(nm, size=int(rng.integers(2, nm + 1)), replace=False))
+        n_s = int(rng.integers(5, 11))
+        members = []
+        for j in range(nm):
+            if j in S:
+                ftype, cost = str(rng.choice(["xy", "indexed"], p=[0.6, 0.4])), "chi2"
+            else:
+                ftype = str(rng.choice(["xy", "indexed", "hist", "unbinned"], p=[0.45, 0.3, 0.15, 0.1]))
+                cost = "nll" if ftype == "unbinned" else str(rng.choice(["chi2", "chi2", "chi2_pointwise", "nll_gaussian", "nll_poisson"]))
+                if shared_mode and cost == "chi2_pointwise":
+                    cost = "chi2"  # every chi2-type member enters the shared cost function with its full covariance matrix
+            spec, ops = gen_single(rng, ftype, cost, prefix="m%d" % j, n=n_s if j in S else None)
+            if rng.random() < 0.5:
+                permute_signature(rng, spec)
+            members.append({"spec": spec, "setup": ops})
+        names, vals = [], []
+        mem = []
+        for j, mb in enumerate(members):
+            m = Model.from_spec(mb["spec"]["model"])
+            mem.append((j, list(m.pnames)))
+            for n, v in zip(m.pnames, m.defaults):
+                if n not in names:
+                    names.append(n)
+                    vals.append(v)
+        chi2_flags = [COST_ALIASES.get(mb["spec"].get("cost")) == "chi2_cov" for mb in members]
+        differs = index_differs(names, mem, chi2_flags)
+        if not (stratified and shared_mode) or differs:
+            break
     hist = gen_history(rng, names, vals, hl, members=mem)
+    if shared_mode:
+        # a constraint on a chi2 member for a parameter that sits at another index in the multi-fit
+        if differs and (stratified or rng.random() < 0.5):
+            j, q = differs[int(rng.integers(0, len(differs)))]
+            mp = mem[j][1]
+            kind = "simple" if rng.random() < 0.6 else "matrix"
+            c = gen.gen_constraint(rng, [q], [vals[names.index(q)]], force_kind="simple") if kind == "simple" else gen.gen_constraint(rng, mp, [vals[names.index(t)] for t in mp], force_kind="matrix" if len(mp) >= 2 else "simple")
+            hist.insert(int(rng.integers(0, len(hist) + 1)), ["member", j, c])
+        yscale = float(np.mean([np.mean(np.abs(members[i]["spec"].get("y") or members[i]["spec"].get("data"))) for i in S]) + 0.5)
+        for k in range(2 if rng.random() < 0.3 else 1):
+            sub = list(S) if (k == 0 or len(S) < 3) else [S[0], S[-1]]
+            force = {"axis": "y", "kind": str(rng.choice(["simple", "matrix"])), "relative": False, "reference": "data"}
+            if force["kind"] == "simple" and rng.random() < 0.5:
+                force["corr"] = float(np.round(rng.uniform(0.1, 0.9), 3))
+            op = gen.gen_source(rng, n_s, "xy", "sh%d" % k, yscale=yscale, force=force, allow_model=False)
+            a = dict(op[1])
+            has_xy = any(members[i]["spec"]["type"] == "xy" for i in sub)
+            a["axis"] = "y" if (has_xy or rng.random() < 0.5) else None
+            a["fits"] = "all" if (len(sub) == nm and rng.random() < 0.3) else (sub[::-1] if rng.random() < 0.2 else sub)
+            hist.insert(int(rng.integers(0, len(hist) + 1)), ["shared", [op[0], a]])
+        if not any(o[0] == "do_fit" for o in hist[[o[0] for o in hist].index("shared") :]):
+            hist.append(["do_fit"])
     return {"property": "C10", "kind": "multi", "members": members, "history": hist, "minimizer": str(rng.choice(["iminuit", "scipy"]))}
 
 
